@@ -22,6 +22,7 @@ META = {
     "outside": ["termination of a whole search and legality of the returned move (needs the recursive search executed: one move "
                 "generation on a near-empty board is 1.5 M SAT variables and CBMC unrolls recursion syntactically)",
                 "inline arithmetic inside negamax/quiescence bodies (eval - margin*depth, plies + 1, depth - 1 - R): cannot be called in isolation",
+                "HistoryTable::decay (a loop over 8192 cells; the harness c04_history_decay did not finish symbolic execution in 25 min and is not run)",
                 "plies = 255 (negamax indexes killers with plies and computes plies + 1 without a guard; reaching it needs a >=128-ply line)"],
     "assumptions": ["a search iteration returns a score in [-32000, 32000]; a fail-low is a score <= alpha, a fail-high a score >= beta",
                     "Kani's debug-profile semantics (overflow-checks=on); release wrap-around is covered by asserting the mathematical result"],
@@ -50,7 +51,6 @@ def jobs(tier, seed):
         Job("c04_eval_ops", "Eval negation, mate_in/mated_in, mate-distance round trip for all scores x plies", timeout=300),
         Job("c04_history_bonus", "HistoryTable::add_bonus_for from any stored score in [0,max], any depth: clamped, no overflow", timeout=600),
         Job("c04_history_index", "HistoryTable::get / CountermoveTable::get with any 16-bit move: in range", timeout=600),
-        Job("c04_history_decay", "HistoryTable::decay divides every cell by the factor (symbolic cell)", timeout=1500, mem_gb=16),
         Job("c04_nodes_per_second", "nodes_per_second for any node count and elapsed time (zero included): no panic", timeout=600),
         Job("c04_pruning_margins", "pruning-margin / null-window expressions of negamax.rs restated with the real operators and constants: no i16 overflow", timeout=300),
         Job("c04_killers", "KillersTable get/try_push for all plies < 255 and any two moves", timeout=600),
